@@ -147,7 +147,7 @@ def burst_scans(requests, owner, mapping, acc, case, keep=True):
         se = mm.ScanEvent(na, "ok", evaluable=ev, deferred=True)
         c = dict(case, **(sub or {}))
         try:
-            se.model = mm.rscan.model(os.path.abspath(os.path.normpath(str(na["root_path"]))), os.path.abspath(os.path.normpath(str(na["module_path"]))), na["_globs"], na["_regexes"])
+            se.model = mm.rscan.model(os.path.abspath(os.path.normpath(os.fspath(na["root_path"]))), os.path.abspath(os.path.normpath(os.fspath(na["module_path"]))), na["_globs"], na["_regexes"])
         except Exception as e:  # noqa: BLE001
             HUB.acc.count("scan_model_errors")
             HUB.acc.hist("scan_model_error", f"{type(e).__name__}: {e}"[:200])
@@ -160,3 +160,73 @@ def burst_scans(requests, owner, mapping, acc, case, keep=True):
         else:
             out.append(None)
     return out
+
+
+# ---------------------------------------------------------------------------------------------------------------------
+# one path, two contents
+# ---------------------------------------------------------------------------------------------------------------------
+
+OLD_EPOCH = 1_600_000_000  # what a build with SOURCE_DATE_EPOCH, an unpacked archive or `cp -p` leaves behind
+
+
+def rescan_after_edit(rnd, acc, owner, mapping, forced=None, option_sets=({},), judged=lambda kw: True):
+    """One tree scanned, some files replaced by other sources IN PLACE - with the SAME size and the SAME modification time
+    (a generator with a fixed SOURCE_DATE_EPOCH, `cp -p`, `rsync -t`, an archive unpacked over the tree; half of the trees
+    carry one fixed old time stamp on every file and directory) - and scanned again at the same path in the same process,
+    once per option set: every later architecture is judged by R-SCAN against the files as they are THEN."""
+    from pytestarch import get_evaluable_architecture
+
+    if forced:
+        first, second, old = forced["first"], forced["second"], forced.get("old", False)
+    else:
+        first = trees.random_project(rnd, depth=3, imports_per_file=(1, 4), externals=0.0, name_imports=0.2, extras=False)
+        # the same layout with freshly drawn import statements
+        second = {"root": first["root"], "dirs": list(first["dirs"]), "files": dict(first["files"])}
+        files = sorted(f for f in first["files"] if f.endswith(".py"))
+        mods = [trees.mod_of("proj", f) for f in files if all(p.isidentifier() for p in f[:-3].split("/"))]
+        for f in rnd.sample(files, max(1, len(files) // 2)):
+            me = trees.mod_of("proj", f)
+            cands = [m for m in mods if m != me and not me.startswith(m + ".")]
+            lines = [rnd.choice([f"import {t}", f"from {t} import some_function", f"import {t} as q"]) for t in rnd.sample(cands, min(len(cands), rnd.randint(0, 3)))]
+            second["files"][f] = "\n".join(lines) + "\ndef some_function():\n    return 2\n"
+        # equal sizes: the shorter version of every edited file is padded with a trailing comment
+        for f in files:
+            a, b = first["files"][f], second["files"][f]
+            if a != b and isinstance(a, str) and isinstance(b, str):
+                la, lb = len(a.encode("utf-8")), len(b.encode("utf-8"))
+                if la < lb:
+                    first["files"][f] = a + "#" * (lb - la)
+                elif lb < la:
+                    second["files"][f] = b + "#" * (la - lb)
+        old = rnd.random() < 0.5
+    case = {"kind": "rescan-after-edit", "first": first, "second": second, "old": old}
+    root = trees.write_tree(first, sub="RESCAN")
+    try:
+        if old:
+            for dirpath, _dirs, fs in os.walk(root):
+                for n in fs:
+                    os.utime(os.path.join(dirpath, n), (OLD_EPOCH, OLD_EPOCH))
+                os.utime(dirpath, (OLD_EPOCH, OLD_EPOCH))
+        HUB.case = case
+        for kw in option_sets:
+            get_evaluable_architecture(root, root, **kw)  # the architectures of the first version, whatever becomes of them
+        for f, src in second["files"].items():
+            if src != first["files"].get(f):
+                p = os.path.join(root, f)
+                st = os.stat(p)
+                with open(p, "w", encoding="utf-8") as fh:
+                    fh.write(src)
+                os.utime(p, ns=(st.st_atime_ns, st.st_mtime_ns))
+                if os.stat(p).st_size == st.st_size:
+                    acc.count("files_replaced_in_place_with_equal_size_and_time_stamp")
+        for kw in option_sets:
+            c = dict(case, options={k: v for k, v in kw.items()})
+            HUB.case = c
+            get_evaluable_architecture(root, root, **kw)
+            se = HUB.scan_events[-1]
+            if judged(kw):
+                attribute_scan_findings(se, mapping, c)
+                acc.evaluated(len(se.model.statements) if se.model else 0)
+                acc.count("rescans_after_in_place_edit")
+    finally:
+        trees.remove_tree(root)
